@@ -77,11 +77,14 @@ def c08 (base : List Handler) (fn : String) (r : Req) : Option (String × String
   let mk (x y : List String) : Req :=
     let q := setKey r "xs" (joinToks x)
     if two then setKey q "ys" (joinToks y) else q
-  let bar (t : String) : String := String.intercalate "|" (t.splitOn ";")
+  -- position-wise results (vrank): only the entries of the valid elements are compared
+  let dropNulls (t : String) : String :=
+    if f = "vrank" then joinToks ((splitList t).filter (· ≠ "_")) else t
+  let bar (t : String) : String := String.intercalate "|" ((dropNulls t).splitOn ";")
   match callBase base f (mk xs ys), callBase base f (mk (insertNulls true xs mask) (insertNulls false ys mask)) with
   | some (m1, s1), some (m2, s2) =>
-    some (if m1 = m2 then bar m1 else "MODELDIFF:" ++ bar m1 ++ ":" ++ bar m2,
-          if s1 = s2 then bar s1 else "SPECDIFF:" ++ bar s1 ++ ":" ++ bar s2)
+    some (if bar m1 = bar m2 then bar m1 else "MODELDIFF:" ++ bar m1 ++ ":" ++ bar m2,
+          if bar s1 = bar s2 then bar s1 else "SPECDIFF:" ++ bar s1 ++ ":" ++ bar s2)
   | _, _ => none
 
 end Tv.Handlers
